@@ -280,22 +280,6 @@ Proof.
     destruct (block_union _ _ _ _ _ Ha) as [[H1 _] _]. apply H1. cbn [block_init]. apply G; exact He.
 Qed.
 
-(** [expected] dominates [accesses] and coincides with it outside the unscanned class *)
-Lemma expected_above : forall sigs i e,
-    expected sigs i = Some e -> exists a, accesses sigs i = Some a /\ acc_le a e.
-Proof.
-  intros sigs i e H. destruct i; cbn [expected] in H; try (exists e; split; [exact H | apply acc_le_refl]).
-  exists acc_none. split; [reflexivity|]. repeat split; intros x [].
-Qed.
-
-Theorem expected_outside_class : forall sigs i,
-    unscanned_class i = false -> expected sigs i = accesses sigs i.
-Proof.
-  intros sigs i H. destruct i; try reflexivity.
-  cbn [unscanned_class] in H. cbn [expected accesses].
-  destruct (exprs_refs es); [reflexivity | discriminate].
-Qed.
-
 Lemma combine_nth_error : forall (A B : Type) (l : list A) (l' : list B) n x y,
     nth_error l n = Some x -> nth_error l' n = Some y -> In (x, y) (combine l l').
 Proof.
@@ -384,7 +368,7 @@ Section SemProofs.
       accesses sigs i = Some a -> agree_on (a_reads a) s1 s2 -> exec sigs i s1 = exec sigs i s2.
   Proof.
     intros sigs i a s1 s2 Ha Hag.
-    destruct i as [d s|d s|op d s|op d s|op m|l r|c|c|op d l r|k es|t es|t dur|t|name args|d src off|dst off s|k|k es|gates|k ps body];
+    destruct i as [d s|d s|op d s|op d s|op m|l r|c|c|op d l r|k es|t es|t dur|t|name args|d src off|dst off s|k|gates|k ps body];
       cbn [accesses] in Ha; cbn [exec];
       try (inversion Ha; subst; clear Ha;
            repeat match goal with o : operand |- _ => destruct o end;
@@ -438,7 +422,7 @@ Section SemProofs.
       writes_within (o_upd o) (a_writes a) /\ writes_within (o_cap o) (a_captures a).
   Proof.
     intros sigs i a s o Ha He.
-    destruct i as [d s0|d s0|op d s0|op d s0|op m|l r|c|c|op d l r|k es|t es|t dur|t|name args|d src off|dst off s0|k|k es|gates|k ps body];
+    destruct i as [d s0|d s0|op d s0|op d s0|op m|l r|c|c|op d l r|k es|t es|t dur|t|name args|d src off|dst off s0|k|gates|k ps body];
       cbn [accesses] in Ha; cbn [exec] in He;
       try (match type of Ha with Some _ = Some _ => idtac end;
            inversion Ha; subst; clear Ha; inversion He; subst; clear He;
@@ -488,7 +472,7 @@ Section SemProofs.
     - intros m v Hin E. apply Hn. apply in_or_app. right. rewrite <- E. eapply HC; exact Hin.
   Qed.
 
-  (** Soundness and frame carry over to any reported triple that contains the expected sets —
+  (** Soundness and frame carry over to any reported triple that contains the table's sets —
       which is what the instance checker establishes for the implementation's output. *)
   Theorem chk_access_sound : forall sigs i o,
       chk_access sigs i (Some o) <> 2%N ->
@@ -497,16 +481,15 @@ Section SemProofs.
           writes_within (o_upd oc) (a_writes o) /\ writes_within (o_cap oc) (a_captures o)).
   Proof.
     intros sigs i o H. unfold chk_access in H.
-    destruct (expected sigs i) as [e|] eqn:Ee; [|congruence].
-    destruct (expected_above sigs i e Ee) as [a [Ea [Lr [Lw Lc]]]].
-    destruct (subsetN (a_reads e) (a_reads o) && subsetN (a_writes e) (a_writes o)
-              && subsetN (a_captures e) (a_captures o)) eqn:Es; [|congruence].
+    destruct (accesses sigs i) as [a|] eqn:Ea; [|congruence].
+    destruct (subsetN (a_reads a) (a_reads o) && subsetN (a_writes a) (a_writes o)
+              && subsetN (a_captures a) (a_captures o)) eqn:Es; [|congruence].
     rewrite !andb_true_iff, !subsetN_spec in Es. destruct Es as [[Hr Hw] Hc].
     split.
     - intros s1 s2 Hag. apply (exec_sound sigs i a s1 s2 Ea).
-      intros r j Hin. apply Hag. apply Hr. apply Lr; exact Hin.
+      intros r j Hin. apply Hag. apply Hr; exact Hin.
     - intros s oc He. destruct (exec_frame sigs i a s oc Ea He) as [HW HC].
-      split; intros m v Hin; [apply Hw; apply Lw; eapply HW | apply Hc; apply Lc; eapply HC]; exact Hin.
+      split; intros m v Hin; [apply Hw; eapply HW | apply Hc; eapply HC]; exact Hin.
   Qed.
 
 End SemProofs.
@@ -572,13 +555,13 @@ End SemProofs.
 
 Theorem chk_access_exact : forall sigs i o,
     chk_access sigs i (Some o) = 0%N ->
-    exists a, expected sigs i = Some a /\
+    exists a, accesses sigs i = Some a /\
               (forall r, In r (a_reads o) <-> In r (a_reads a)) /\
               (forall r, In r (a_writes o) <-> In r (a_writes a)) /\
               (forall r, In r (a_captures o) <-> In r (a_captures a)).
 Proof.
   intros sigs i o H. unfold chk_access in H.
-  destruct (expected sigs i) as [a|] eqn:Ea; [|discriminate].
+  destruct (accesses sigs i) as [a|] eqn:Ea; [|discriminate].
   destruct (subsetN (a_reads a) (a_reads o) && subsetN (a_writes a) (a_writes o)
             && subsetN (a_captures a) (a_captures o)) eqn:Es; [|discriminate].
   destruct (subsetN (a_reads o) (a_reads a) && subsetN (a_writes o) (a_writes a)
@@ -591,35 +574,18 @@ Qed.
 Theorem chk_access_error : forall sigs i,
     chk_access sigs i None = 0%N -> accesses sigs i = None.
 Proof.
-  intros sigs i H. unfold chk_access in H. destruct (expected sigs i) as [e|] eqn:E; [discriminate|].
-  destruct i; cbn [expected] in E; try exact E. discriminate.
+  intros sigs i H. unfold chk_access in H. destruct (accesses sigs i); [discriminate | reflexivity].
 Qed.
 
-(** the full expression statement fails exactly on the unscanned class *)
-Definition Expressions_full : Prop :=
-  forall sigs i a e m,
-    accesses sigs i = Some a -> In e (all_exprs i) -> In m (memrefs e) -> In (mreg m) (a_reads a).
-
-Theorem expressions_refuted :
+(** regression: the pre-fix table misses the references of DEFFRAME attribute expressions and
+    PAULI-SUM coefficients (finding C27-unscanned-definition-exprs, fixed by 5c78b87) *)
+Theorem unfixed_table_refuted :
   exists sigs i a e m,
-    unscanned_class i = true /\
-    accesses sigs i = Some a /\ In e (all_exprs i) /\ In m (memrefs e) /\ ~ In (mreg m) (a_reads a).
+    accesses_unfixed sigs i = Some a /\ In e (instr_exprs i) /\ In m (memrefs e) /\ ~ In (mreg m) (a_reads a).
 Proof.
-  exists [], (IUnscanned KDefGatePauliSum [EInfix 4 (EAddr (0, 0)%N) (EVar 0)]), acc_none,
+  exists [], (IExprs KDefGatePauliSum [EInfix 4 (EAddr (0, 0)%N) (EVar 0)]), acc_none,
     (EInfix 4 (EAddr (0, 0)%N) (EVar 0)), (0, 0)%N.
-  split; [reflexivity|]. split; [reflexivity|]. split; [left; reflexivity|].
-  split; [left; reflexivity|]. intros [].
-Qed.
-
-Theorem exprs_reported_all : forall sigs i a e m,
-    unscanned_class i = false ->
-    accesses sigs i = Some a -> In e (all_exprs i) -> In m (memrefs e) -> In (mreg m) (a_reads a).
-Proof.
-  intros sigs i a e m Hc Ha He Hm.
-  destruct i; try (eapply exprs_reported; eassumption).
-  cbn [unscanned_class] in Hc. cbn [all_exprs] in He. exfalso.
-  assert (Hin : In m (exprs_refs es)) by (unfold exprs_refs; apply in_flat_map; exists e; split; assumption).
-  destruct (exprs_refs es); [contradiction | discriminate].
+  split; [reflexivity|]. split; [left; reflexivity|]. split; [left; reflexivity|]. intros [].
 Qed.
 
 (** * Tightness (over the concrete interpretation [ZSem]) *)
@@ -676,7 +642,7 @@ Definition ctor_id (i : instr) : nat :=
   | IUnaryLogic _ _ => 4 | IExchange _ _ => 5 | IJumpWhen _ => 6 | IJumpUnless _ => 7
   | IComparison _ _ _ _ => 8 | IExprs _ _ => 9 | ICapture _ _ => 10 | IRawCapture _ _ => 11
   | IMeasure _ => 12 | ICall _ _ => 13 | ILoad _ _ _ => 14 | IStore _ _ _ => 15
-  | INoAccess _ => 16 | IDefGateSeq _ => 17 | IBlock _ _ _ => 18 | IUnscanned _ _ => 19
+  | INoAccess _ => 16 | IDefGateSeq _ => 17 | IBlock _ _ _ => 18
   end.
 
 Theorem witnesses_tight : Forall (Tight ZSem.wsigs) ZSem.witnesses.
